@@ -414,11 +414,22 @@ def case_filter(ctx, model, case):
     except Exception as e:  # noqa
         tf = {"err": err_name(e)}
     if size % 2 == 1:
-        # error branch: the port rejects odd sizes (scikit-image documents "must be even"); model must agree on the error kind
+        # error branch (outside the property: filter sizes are even). The port rejects odd sizes explicitly; scikit-image fails
+        # implicitly (its float-bounds `n` array does not broadcast into f[1::2]) except for size 1. Both models must reproduce that.
+        try:
+            sf = s_filter(size, name)
+        except Exception as e:  # noqa
+            sf = {"err": err_name(e)}
+        ctx.dist[f"filter-odd:skimage={'err' if isinstance(sf, dict) else 'returns'}"] += 1
         if model.drv is not None:
             mf = model.filt("torch", size, name)
             if not (isinstance(mf, dict) and isinstance(tf, dict) and mf.get("err") == tf.get("err")):
                 ctx.disagree("filterTorch-error", case, mf if isinstance(mf, dict) else "array", tf if isinstance(tf, dict) else "array")
+            ms = model.filt("sk", size, name)
+            if isinstance(ms, dict) != isinstance(sf, dict) or (isinstance(ms, dict) and ms.get("err") != sf.get("err")):
+                ctx.disagree("filterSk-odd-size", case, ms if isinstance(ms, dict) else "array", sf if isinstance(sf, dict) else "array")
+            elif not isinstance(ms, dict) and maxdiff(sf, ms) > TOL64 * scale(ms):
+                ctx.disagree("filterSk-odd-size", case, *views(sf, ms))
         return
     ctx.mark(("filter", size, name))
     ref = s_filter(size, name)
@@ -632,7 +643,7 @@ def gen_iradon_case(ctx, rng, model_cost=True):
 
 
 def gen_filter_case(rng):
-    size = rng.weighted([(rng.choice([64, 128, 256]), 4), (2 * rng.randint(1, 48), 4), (rng.choice([2, 4, 6, 8]), 1), (2 * rng.randint(1, 20) + 1, 1)])
+    size = rng.weighted([(rng.choice([64, 128, 256]), 4), (2 * rng.randint(1, 48), 4), (rng.choice([2, 4, 6, 8, 10, 14]), 1), (2 * rng.randint(0, 20) + 1, 1)])
     return {"kind": "filter", "size": size, "name": rng.choice(FILTERS)}
 
 
@@ -664,6 +675,12 @@ WITNESSES = [
     {"kind": "filter", "size": 64, "name": "cosine"},
     {"kind": "filter", "size": 2, "name": "cosine"},
     {"kind": "filter", "size": 4, "name": "cosine"},
+    # sizes with size % 4 == 2 (shared quirk of the n array) and odd sizes (error branch; size 1: skimage returns [0.5], the port rejects)
+    {"kind": "filter", "size": 6, "name": "ramp"},
+    {"kind": "filter", "size": 10, "name": "hann"},
+    {"kind": "filter", "size": 1, "name": "ramp"},
+    {"kind": "filter", "size": 3, "name": "ramp"},
+    {"kind": "filter", "size": 7, "name": "hamming"},
     # legacy interpolant: extrapolation beyond the detector end (circle=False, N = 10, 45 degrees: corner pixels reach t_idx > N-1)
     {"kind": "iradon", "N": 10, "A": 1, "sino": "edge", "seeds": [3], "thetas": [45.0], "filter": None, "circle": False},
     # no circle-to-square padding: even N (detector end) and N in 23..32 (padded filter size 64 instead of 128)
